@@ -9,6 +9,15 @@ TECH = "deterministic simulation with fault injection: seeded generation of hist
 
 CLAIMED = {
     # id: (engine, design_ref, level text, level note)
+    "C05": ("movesim", "6.3",
+            "Seeded codes (synthetic ISA and real RV64IMA words) and move histories; every block whose order changed is emulated through the real emulator on a fresh unmoved code and on the moved code from identical pseudo-random machine states (simulated lazy memory provider); final registers, memory and instruction pointer must agree; unmoved instructions single-stepped after block moves.",
+            "Trusted: harness provider and state rendering; emulator is the real one on both sides (relational oracle)."),
+    "C06": ("movesim", "6.3",
+            "At the initial state and after every move of a seeded history, every adjacent pair that is independent by the statement's five clauses (computed by the harness from the effects) is probed with a real Move(i,i+1), which must be accepted and is then undone.",
+            "Trusted: harness independence computation written from the statement."),
+    "C07": ("movesim", "6.3",
+            "Seeded histories of instruction moves, block moves and lookups with valid/boundary/invalid indices; after every event the real code is compared with a sequence model (admission iff within reported bounds, rejection changes nothing, rotation, address tiling, lookups, dependency order via the VerifDeps hook, block moves permute only).",
+            "Trusted: sequence model; dependency edges read through the verif hook."),
     "C14": ("memsim", "6.1",
             "Seeded histories of overlapping Store/Load/Missing/Blocks on memory.Sparse with constant and symbolic values; after every event the object is compared with a byte-addressed reference model under 6 valuations, plus an aliasing snapshot oracle. Exploration: sampled, not exhaustive.",
             "Trusted: bytemem + refeval reference (written from pkg/expr docs). Ranges non-wrapping, widths 1..255."),
